@@ -7,6 +7,7 @@ import (
 	"math/rand"
 	"os"
 	"runtime"
+	"strings"
 	"sync"
 	"time"
 
@@ -28,9 +29,11 @@ type Stage struct {
 	// Layouts, if set: every kept behaviour is replayed once under EACH of these page layouts
 	// (instead of under one of the standard concretisations chosen per behaviour)
 	Layouts []sim.Layout
-	Need    string // if set, keep only behaviours that contain an action with this name
-	MinNs   int // if > 0, keep only behaviours in which some transaction sets the size to at least this many model pages
-	Workers int // parallel replays (0 = one per CPU); the lock-page layout needs gigabytes per replay
+	AllCfgs bool     // replay every kept behaviour under EVERY standard concretisation (not one chosen per behaviour)
+	Needs   []string // further required actions; "Name*2" = at least two occurrences
+	Need    string   // if set, keep only behaviours that contain an action with this name
+	MinNs   int      // if > 0, keep only behaviours in which some transaction sets the size to at least this many model pages
+	Workers int      // parallel replays (0 = one per CPU); the lock-page layout needs gigabytes per replay
 }
 
 // Collect runs the stage; a model-level violation is an infrastructure failure (R2: the model is
@@ -56,6 +59,20 @@ func Collect(rep *core.Report, st Stage, seed int64) []Trace {
 				}
 			}
 			if st.Need != "" && !bytes.Contains(payload, []byte(`"a":"`+st.Need+`"`)) {
+				return
+			}
+			okNeeds := true
+			for _, nd := range st.Needs {
+				name, cnt := nd, 1
+				if k := strings.Index(nd, "*"); k > 0 {
+					name = nd[:k]
+					fmt.Sscan(nd[k+1:], &cnt)
+				}
+				if bytes.Count(payload, []byte(`"a":"`+name+`"`)) < cnt {
+					okNeeds = false
+				}
+			}
+			if !okNeeds {
 				return
 			}
 			if st.MinNs > 0 {
@@ -247,7 +264,11 @@ func Main(rep *core.Report, args *core.Args, prop string, stages []Stage) {
 			stageDone()
 			continue
 		}
-		ReplayAll(rep, prop, traces, cfgs, args.Seed)
+		if st.AllCfgs {
+			replayAll(rep, prop, traces, cfgs, args.Seed, true, st.Workers)
+		} else {
+			ReplayAll(rep, prop, traces, cfgs, args.Seed)
+		}
 		stageDone()
 	}
 	if Post != nil {
